@@ -441,6 +441,8 @@ _TYPE_SAMPLES = {
     "str": lambda: Const("zz"), "bool": lambda: Const(True), "None": lambda: Const(None),
     "list": lambda: TupleV([Form.num(1), Form.num(0)], "list"), "tuple": lambda: TupleV([Form.num(1), Form.num(0)], "tuple"),
     "dict": lambda: DictV([]),
+    # wrongly typed AND falsy: a guard entered through the value's truth (`if bias:`) never sees them
+    "empty str": lambda: Const(""), "empty list": lambda: TupleV([], "list"), "empty tuple": lambda: TupleV([], "tuple"),
 }
 _TYPE_FACTS = {"np.ndarray": ("inst", "numpy.ndarray", "ndarray"), "numpy.ndarray": ("inst", "numpy.ndarray", "ndarray"), "ndarray": ("inst", "numpy.ndarray", "ndarray")}
 
